@@ -7,6 +7,7 @@ import GqlVerif.Proofs.C01Rust
 import GqlVerif.Proofs.C01VariantSpread
 import GqlVerif.Proofs.C01VariantSpreadE
 import GqlVerif.Proofs.C01VariantSpreadG
+import GqlVerif.Proofs.C01RustSpread
 open GqlVerif.C01
 #print axioms accepts_mono
 #print axioms conforming_int_accepted
@@ -126,3 +127,16 @@ open GqlVerif.C01
 #print axioms GqlVerif.C01.E2E.variantspread2_alias_keeps_sibling
 #print axioms GqlVerif.C01.E2E.variantspread2_alias_type_needed
 #print axioms GqlVerif.C01.E2E.variantspread2_edge_needed
+-- VariantSpreadOp / VariantSpreadOp2 under normalization rust, by transfer (Proofs/C01RustSpread.lean)
+#print axioms GqlVerif.C01.E2E.variantspread_accepts_rust
+#print axioms GqlVerif.C01.E2E.variantspread_roundtrip_rust
+#print axioms GqlVerif.C01.E2E.variantspread_lossless_rust
+#print axioms GqlVerif.C01.E2E.variantspread_content_rust
+#print axioms GqlVerif.C01.E2E.variantspread_roundtrip_noB_rust
+#print axioms GqlVerif.C01.E2E.variantspread2_accepts_rust
+#print axioms GqlVerif.C01.E2E.variantspread2_roundtrip_rust
+#print axioms GqlVerif.C01.E2E.variantspread2_lossless_rust
+#print axioms GqlVerif.C01.E2E.variantspread2_content_rust
+#print axioms GqlVerif.C01.E2E.ns_roundtrip_rust
+#print axioms GqlVerif.C01.E2E.ns2_roundtrip_rust
+#print axioms GqlVerif.C01.E2E.ns_items_differ
